@@ -1,4 +1,5 @@
 import OjgVerif.Reuse.Pool
+import OjgVerif.Reuse.Registry
 import OjgVerif.Props.C07
 /-! # C08 — concurrent use of the package-level APIs (PARTIAL: the ownership protocol only)
 
@@ -18,7 +19,8 @@ interleaving. Proved for every reachable state / every interleaving:
 Tied to the source by the regenerated facts (`Gen.ReuseFacts`): which pooled API returns a copy,
 deferred `Put`, every access to the struct-info caches under `structMut`, `Script.template`
 never assigned after construction. NOT covered: data races inside a step, `sync.Pool` internals,
-the Go memory model, shared `jp.Expr` values, `alt.Recomposer` registration: the `-race` stress run
+the Go memory model, shared `jp.Expr` values, `alt.Recomposer` beyond the closure of registration
+under the field walk (`C08_registry_closed`): the `-race` stress run
 of the harness is the (supporting, not conclusive) evidence for those. -/
 namespace OjgVerif.C08
 open OjgVerif OjgVerif.Reuse OjgVerif.Reuse.Pool
@@ -189,6 +191,46 @@ whichever goroutine cached what first (`C07.C07_struct_cache` over the regenerat
 theorem caches_order_free (c1 c2 : Reuse.Cache) (h1 : c1.wf) (h2 : c2.wf) (t : Nat) (om : Bool) :
     (Reuse.getTypeStruct C07.cacheSelectsByFlag c1 t om).1 = (Reuse.getTypeStruct C07.cacheSelectsByFlag c2 t om).1 :=
   C07.C07_struct_cache c1 c2 h1 h2 t om
+
+/-! ## The recomposer: "a recomposer whose types were registered beforehand"
+
+Registering a struct type registers the struct types its fields hold as well; `Recompose` on a
+shared Recomposer then only reads the registry. The container kinds the field walk of
+`registerComposer` follows are read from the source (`recomposerWalkKinds`, the labels of its
+`switch ft.Kind()`). -/
+
+/-- the walk follows this kind of field (generated) -/
+def walkFollows (k : Reuse.Reg.FKind) : Bool :=
+  match k.goName with
+  | none => true
+  | some n => recomposerWalkKinds.contains n
+
+/-- **every way a field can hold a struct type — directly, pointer, slice, map, ARRAY — is followed
+by the field walk** (kernel-evaluated over the regenerated case labels; dropping a kind from the
+`case reflect.Array, reflect.Slice, reflect.Map, reflect.Ptr:` line breaks this proof), the only
+writers of the registry are the register functions, and the only place that registers on the fly
+is `recomp` (which is why an unfollowed kind means a write during `Recompose`) -/
+theorem recomposer_walk_kinds :
+    (Reuse.Reg.FKind.all.all walkFollows &&
+     recomposerWriters.all (fun w => ["alt.Recomposer.RegisterUnmarshalerComposer", "alt.Recomposer.registerAnyComposer",
+       "alt.Recomposer.registerComposer"].contains w) &&
+     recomposerLazyCallers == ["alt.Recomposer.recomp"]) = true := by decide
+
+/-- **after a struct type has been registered, recomposing a value of it performs no registry
+write** (one level: the step the walk repeats) -/
+theorem C08_registry_closed (reg : List Nat) (t : Reuse.Reg.TyDecl) :
+    Reuse.Reg.lazyWrites (Reuse.Reg.register walkFollows reg t) t = [] := by
+  apply Reuse.Reg.closed_of_follows
+  intro k
+  have h := recomposer_walk_kinds
+  simp only [Bool.and_eq_true, List.all_eq_true] at h
+  exact h.1.1 k (by cases k <;> decide)
+
+/-- and each kind is needed: a walk that skips one leaves a type whose first `Recompose` calls
+write the registry (for `array`: the seeded change C08-m2) -/
+theorem C08_registry_needs_kind (follows : Reuse.Reg.FKind → Bool) (k : Reuse.Reg.FKind) (h : follows k = false) :
+    Reuse.Reg.lazyWrites (Reuse.Reg.register follows [] ⟨0, [(k, 1)]⟩) ⟨0, [(k, 1)]⟩ = [1] :=
+  Reuse.Reg.not_closed_of_skips follows k h
 
 /-- **Shared scripts**: no function of package jp assigns to `Script.template` or an element of it
 after construction (evaluation copies the template into a per-call stack) -/
